@@ -1381,7 +1381,12 @@ func (b *c10Browser) Respond(ops []c10RespOp) (parts int, ok bool) {
 	case lerr != nil || got == nil:
 		b.run.Count("loads_after_save", 1)
 		cur.Load = fmt.Sprintf("error: %v", lerr)
-		b.run.Violation("c10:load-fails-after-response-ending-in-save", fmt.Sprintf("[%s] the session saved last on the response does not load (%v) after %s", b.cfg.Label, lerr, b.histString()), b.detail(nil))
+		sig := "c10:load-fails-after-response-ending-in-save"
+		if parts > 1 && b.collides(rw.Header().Values("Set-Cookie")) {
+			// the known input class of its own (256-character name ending in _<k>): one PART of the split session carries the configured name
+			sig = "c10:split-part-named-like-the-unsplit-cookie"
+		}
+		b.run.Violation(sig, fmt.Sprintf("[%s] the session saved last on the response does not load (%v) after %s", b.cfg.Label, lerr, b.histString()), b.detail(nil))
 	default:
 		b.run.Count("loads_after_save", 1)
 		if d := c10Diff(*snap, got); len(d) > 0 {
